@@ -13,7 +13,7 @@ Local Open Scope string_scope.
 
 (* Not asserted: substitution at every site in both modes. Refuted without the class premise
    (C18_prefix_on_target_refuted); proved at the unqualified TypeScript sites for all inputs
-   (C18_subst_plain) and on the depth-2 sweep for the other sites (C18_sweep_depth2_partial). *)
+   (C18_subst_plain) and on bounded sweeps of the model for the other sites (C18_sweep_depth1_partial). *)
 Definition C18_subst_full_statement : Prop :=
   forall (s : site) (md : mode) (m : mapping) (t : rty),
     mapping_ok m -> dom_m m t = true -> kf_C18 s md m t = false ->
@@ -47,17 +47,18 @@ Theorem C18_subst_plain : forall m t, mapping_ok m -> dom_m m t = true ->
                observe (site_is_type s md) text = Some (expected s m t).
 Proof. exact sound_plain. Qed.
 
-(* All five sites, both modes, every constructor spine to depth 2 over String, i32, PathBuf, Uuid,
+(* All five sites, both modes, every constructor spine to depth 1 over String, i32, PathBuf, Uuid,
    DateTime<Utc>, User, table PathBuf->string, Uuid->number, DateTime<Utc>->boolean.
    [subst_at m s md t] reads: the model prints a text with and without the table and, unless the
    case lies in a recorded class (kf_C18), the relational oracle c18_ok accepts the pair.
-   Bounded, hence _partial. *)
-Theorem C18_sweep_depth2_partial :
-  forall t, In t spines18_2 -> forall s md, subst_at table18 s md t = true.
-Proof. exact (sweep_spec (subst_at table18) spines18_2 (proj1 sweep18_depth2)). Qed.
-Theorem C18_sweep_domain_depth2_partial :
-  forall t, In t spines18_2 -> dom_m table18 t = true.
-Proof. exact (proj1 (forallb_forall (dom_m table18) spines18_2) (proj2 sweep18_depth2)). Qed.
+   Bounded, hence _partial. The depth-2 sweep is Proofs/C18Sweep2.v (compiled by the thorough tier,
+   kept out of this closure because coqchk re-evaluates it without the VM). *)
+Theorem C18_sweep_depth1_partial :
+  forall t, In t spines18_1 -> forall s md, subst_at table18 s md t = true.
+Proof. exact (sweep_spec (subst_at table18) spines18_1 (proj1 sweep18_depth1)). Qed.
+Theorem C18_sweep_domain_depth1_partial :
+  forall t, In t spines18_1 -> dom_m table18 t = true.
+Proof. exact (proj1 (forallb_forall (dom_m table18) spines18_1) (proj2 sweep18_depth1)). Qed.
 
 (* the classes are genuine failures of the faithful model *)
 Theorem C18_prefix_on_target_refuted :
@@ -100,15 +101,15 @@ Proof. cbv zeta. split.
     destruct Hn as [<-|[<-|[]]]; vm_compute; reflexivity.
   - vm_compute. reflexivity. Qed.
 Example C18_sweep_premises :
-  exists t, In t spines18_2 /\ tts t = L "Option<Vec<Uuid>>" /\ kf_C18 SReturn MZod table18 t = false.
+  exists t, In t spines18_1 /\ tts t = L "Option<Uuid>" /\ kf_C18 SReturn MZod table18 t = false.
 Proof. exact sweep18_premises_example. Qed.
 
 Print Assumptions C18_frame.
 Print Assumptions C18_frame_type.
 Print Assumptions C18_render_subst.
 Print Assumptions C18_subst_plain.
-Print Assumptions C18_sweep_depth2_partial.
-Print Assumptions C18_sweep_domain_depth2_partial.
+Print Assumptions C18_sweep_depth1_partial.
+Print Assumptions C18_sweep_domain_depth1_partial.
 Print Assumptions C18_prefix_on_target_refuted.
 Print Assumptions C18_tuple_comma_refuted.
 Print Assumptions C18_result_comma_refuted.
